@@ -1,6 +1,6 @@
 (* Dispatcher for the Cli area (C20 exchange-rate cache, C19 front-end):
    executable entry points used by the correspondence checks. *)
-From FendV Require Import Base.Prelude Cli.Rates.
+From FendV Require Import Base.Prelude Cli.Rates Cli.Front.
 Open Scope N_scope.
 
 (* ---------------- C20 ---------------- *)
@@ -169,10 +169,164 @@ Definition run_c20 (op : list N) (args : list sx) : option sx :=
     end
   else None.
 
+(* ---------------- C19 ---------------- *)
+
+Fixpoint as_files (l : list sx) : option (list (list N * list N)) :=
+  match l with
+  | [] => Some []
+  | XL [XS p; XS c] :: r => match as_files r with Some fs => Some ((p, c) :: fs) | None => None end
+  | _ => None
+  end.
+
+Fixpoint files_read (fs : list (list N * list N)) (p : list N) : option (list N) :=
+  match fs with
+  | [] => None
+  | (q, c) :: r => if list_N_eqb p q then Some c else files_read r p
+  end.
+
+Definition sx_action (a : ares) : sx :=
+  match a with
+  | AOk AHelp => XL [XS (B"help")]
+  | AOk AVersion => XL [XS (B"version")]
+  | AOk ARepl => XL [XS (B"repl")]
+  | AOk ADefaultConfig => XL [XS (B"default-config")]
+  | AOk (AEval es) => XL (XS (B"eval") :: map XS es)
+  | AErrNoFilename => XL [XS (B"err"); XS (B"expected a filename")]
+  | AErrNoExpr => XL [XS (B"err"); XS (B"expected an expression")]
+  | AErrRead f => XL [XS (B"err-read"); XS f]
+  end.
+
+Definition as_cres (s : sx) : option cres :=
+  match s with
+  | XL [XS k; XS m] => if opeq k "err" then Some (CErr m) else None
+  | XL [XS k; XS t; XA u; XA nl; XA ns] =>
+    if opeq k "ok" then Some (COk t (negb (u =? 0)%Z) (negb (nl =? 0)%Z) (negb (ns =? 0)%Z)) else None
+  | _ => None
+  end.
+
+Fixpoint as_cress (l : list sx) : option (list cres) :=
+  match l with
+  | [] => Some []
+  | x :: r => match as_cres x, as_cress r with
+              | Some c, Some cs => Some (c :: cs) | _, _ => None end
+  end.
+
+(* fend_core as a script: the context is the number of evaluations so far *)
+Definition scripted_core (rs : list cres) (c : nat) (e : str) : nat * cres :=
+  (S c, nth c rs (CErr (B"model: no scripted result"))).
+
+Definition sx_out (o : out) : sx := XL [XS (o_stdout o); XS (o_stderr o); sx_N (o_exit o)].
+
+(* toml value trees: ("s" "text") ("i" n) ("f") ("b" 0|1) ("d") ("a" v...) ("t" ("key" v)...) *)
+Fixpoint as_tv (s : sx) : option tv :=
+  match s with
+  | XL (XS k :: rest) =>
+    if opeq k "s" then match rest with [XS t] => Some (TStr t) | _ => None end
+    else if opeq k "i" then match rest with [XA z] => Some (TInt z) | _ => None end
+    else if opeq k "f" then Some TFloat
+    else if opeq k "b" then match rest with [XA z] => Some (TBool (negb (z =? 0)%Z)) | _ => None end
+    else if opeq k "d" then Some TDate
+    else if opeq k "a" then
+      option_map TArr
+        ((fix go (l : list sx) : option (list tv) :=
+            match l with
+            | [] => Some []
+            | x :: r => match as_tv x, go r with
+                        | Some v, Some vs => Some (v :: vs) | _, _ => None end
+            end) rest)
+    else if opeq k "t" then
+      option_map TTab
+        ((fix go (l : list sx) : option (list (str * tv)) :=
+            match l with
+            | [] => Some []
+            | XL [XS key; x] :: r => match as_tv x, go r with
+                                     | Some v, Some vs => Some ((key, v) :: vs) | _, _ => None end
+            | _ => None
+            end) rest)
+    else None
+  | _ => None
+  end.
+
+Definition sx_attr (a : cu_attr) : sx :=
+  XS (match a with
+      | CuNone => B"none" | CuLong => B"allow-long-prefix" | CuShort => B"allow-short-prefix"
+      | CuIsLong => B"is-long-prefix" | CuAlias => B"alias" end).
+
+Definition sx_unit (u : cunit) : sx :=
+  XL [XS (cu_singular u); XS (cu_plural u); XS (cu_definition u); sx_attr (cu_attribute u)].
+
+Definition sx_diag (d : diag) : sx :=
+  match d with
+  | DNotUtf8 => XL [XS (B"not-utf8")]
+  | DInvalid => XL [XS (B"invalid")]
+  | DColorsSetting => XL [XS (B"colors-setting")]
+  | DUnknownKey k => XL [XS (B"unknown-key"); XS k]
+  end.
+
+Definition sx_config (r : config * list diag) : sx :=
+  let c := fst r in
+  XL [XL [XS (c_prompt c);
+          sx_N (match c_colors_mode c with CNever => 0 | CAuto => 1 | CAlways => 2 end);
+          sx_bool (c_coulomb c); XA (c_max_hist c); sx_bool (c_internet c);
+          sx_N (match c_source c with SDisabled => 0 | SEU => 1 | SUN => 2 end);
+          XA (c_max_age c); XL (map sx_unit (c_units c)); sx_bool (c_comma c);
+          sx_bool (c_warn c); XL (map XS (c_unknown c))];
+      XL (map sx_diag (snd r))].
+
+Definition run_c19 (op : list N) (args : list sx) : option sx :=
+  (* (args (("path" "contents")...) "arg"...) : Action::from_args *)
+  if opeq op "args" then
+    match args with
+    | XL fs :: rest =>
+      match as_files fs, as_Ss rest with
+      | Some files, Some a => Some (sx_action (from_args (files_read files) a))
+      | _, _ => Some sx_bad
+      end
+    | _ => Some sx_bad
+    end
+  (* the same through the specification (lex + group + decide) *)
+  else if opeq op "args-spec" then
+    match args with
+    | XL fs :: rest =>
+      match as_files fs, as_Ss rest with
+      | Some files, Some a => Some (sx_action (spec_from_args (files_read files) a))
+      | _, _ => Some sx_bad
+      end
+    | _ => Some sx_bad
+    end
+  (* (eval-exprs (result...) "expr"...) : eval_exprs on a scripted core *)
+  else if opeq op "eval-exprs" then
+    match args with
+    | XL rs :: rest =>
+      match as_cress rs, as_Ss rest with
+      | Some results, Some es => Some (sx_out (eval_exprs nat (scripted_core results) O es))
+      | _, _ => Some sx_bad
+      end
+    | _ => Some sx_bad
+    end
+  (* (config absent|not-utf8|toml-error) / (config tree <toml value>) : read_config_file *)
+  else if opeq op "config" then
+    match args with
+    | [XS k] =>
+      if opeq k "absent" then Some (sx_config (read_config FAbsent))
+      else if opeq k "not-utf8" then Some (sx_config (read_config FNotUtf8))
+      else if opeq k "toml-error" then Some (sx_config (read_config FTomlError))
+      else Some sx_bad
+    | [XS k; t] =>
+      if opeq k "tree" then
+        match as_tv t with
+        | Some (TTab kv) => Some (sx_config (read_config (FTree kv)))
+        | _ => Some sx_bad
+        end
+      else Some sx_bad
+    | _ => Some sx_bad
+    end
+  else None.
+
 Definition run_cli : dispatcher := fun op args =>
   match run_c20 op args with
   | Some r => Some r
-  | None => None
+  | None => run_c19 op args
   end.
 
 Definition run_cli_line : list N -> list N := run_with run_cli.
